@@ -253,7 +253,89 @@ def context_rule(chk):
     chk.floor(rule, n, 3)
 
 
+BLOCKING_ATTRS = {"acquire", "join", "wait", "wait_for"}
+BLOCKING_NAMES = {"ext:time.sleep", "ext:threading.Barrier.wait", "ext:concurrent.futures.wait"}
+
+BLOCK_CONTROL = '''
+import threading, time
+class R:
+    def f(self):
+        self._slots.acquire()
+        self._lock.acquire(blocking=False)
+        self._done.wait()
+        time.sleep(1)
+        self.thread.join()
+    async def g(self):
+        await self._ready.wait()
+'''
+
+
+def blocking_calls(prog, mod, fnode):
+    """non-awaited calls of blocking threading primitives inside one function"""
+    awaited = {id(n.value) for n in util.walk_no_nested(fnode) if isinstance(n, ast.Await)}
+    out = []
+    for n in util.walk_no_nested(fnode):
+        if not isinstance(n, ast.Call) or id(n) in awaited:
+            continue
+        r = prog.resolve(mod, n.func)
+        if r in BLOCKING_NAMES:
+            out.append((n, r[4:]))
+            continue
+        if isinstance(n.func, ast.Attribute) and n.func.attr in BLOCKING_ATTRS and not (r or "").startswith("cobald"):
+            kws = {k.arg: k.value for k in n.keywords}
+            if n.func.attr == "acquire":
+                nb = kws.get("blocking", n.args[0] if n.args else None)
+                if isinstance(nb, ast.Constant) and nb.value is False:
+                    continue
+                to = kws.get("timeout")
+                if isinstance(to, ast.Constant) and to.value == 0:
+                    continue
+            if n.func.attr == "join" and (n.args or isinstance(n.func.value, ast.Constant)):
+                continue  # str.join(iterable); Thread.join takes no positional argument here
+            recv = util.unparse(n.func.value)
+            if recv.split(".")[0] in ("asyncio", "trio"):
+                continue
+            out.append((n, "%s.%s()" % (recv, n.func.attr)))
+    return out
+
+
+def no_blocking(chk):
+    """O11.5: nothing that runs on the loop thread or the trio thread blocks on a threading primitive"""
+    prog = chk.program
+    rule = "O11.5"
+    ctl = query.adhoc_module(prog, BLOCK_CONTROL)
+    cls = [n for n in ctl.tree.body if isinstance(n, ast.ClassDef)][0]
+    f, g = cls.body[0], cls.body[1]
+    if len(blocking_calls(prog, ctl, f)) != 4 or blocking_calls(prog, ctl, g):
+        chk.undecided(rule, "<positive control>", "the blocking-call matcher does not behave as expected on its control example")
+        return
+    chk.ok(rule, "<positive control>", "matcher finds acquire()/wait()/sleep()/join() and ignores acquire(blocking=False) and awaited waits")
+    g = CallGraph(prog)
+    n = 0
+    bad = 0
+    for fi in g.funcs:
+        ctx = g.contexts.get(fi.qual, set())
+        if not (ctx & {LOOP, TRIO}):
+            continue
+        n += 1
+        for node, what in blocking_calls(prog, fi.module, fi.node):
+            chk.count()
+            bad += 1
+            chk.bad(
+                rule,
+                fi.qual,
+                "%s blocks the calling thread, and this function runs in context %s: while it waits, every coroutine payload of that flavour is stalled (e.g. by blocked thread payloads)"
+                % (what, sorted(ctx & {LOOP, TRIO})),
+                node=node,
+                stmt="blocking %s" % what,
+            )
+    chk.floor(rule, n, 20)
+    if not bad:
+        chk.ok(rule, "<package>", "none of the %d functions that run on the loop / trio thread calls a blocking threading primitive" % n)
+
+
 def run(chk):
+    chk.guard("O11.5", "<blocking>", no_blocking, chk)
     entry = chk.guard("O11.1", "<package>", creators, chk)
     chk.guard("O11.3", "<routing>", routing, chk, entry)
     chk.guard("O11.4", "<contexts>", context_rule, chk)
